@@ -18,10 +18,12 @@ package main
 
 import (
 	"encoding/json"
+	"fmt"
 	"go/ast"
 	"go/types"
 	"os"
 	"sort"
+	"strings"
 
 	"golang.org/x/tools/go/ssa"
 )
@@ -127,4 +129,77 @@ func renamedLocal(fnKey string, fn *ssa.Function, name string) string {
 		return ""
 	}
 	return cand
+}
+
+// ---- renamed functions --------------------------------------------------------
+//
+// Contracts are keyed by function name.  /verif/baseline/functions.json lists every
+// function of the repository on the unchanged tree with its signature.  A contract whose
+// function no longer exists is rebound to a function of the same package, receiver and
+// signature whose name the baseline does not know, when there is exactly one.
+
+var baselineFunctionsPath = "/verif/baseline/functions.json"
+
+func fnSig(fn *ssa.Function) string {
+	recv := ""
+	if r := fn.Signature.Recv(); r != nil {
+		recv = types.TypeString(r.Type(), nil) + " "
+	}
+	pkg := ""
+	if fn.Pkg != nil {
+		pkg = fn.Pkg.Pkg.Path()
+	}
+	return pkg + " " + recv + types.TypeString(fn.Signature, nil)
+}
+
+func (e *Engine) writeBaselineFunctions(path string) error {
+	tab := map[string]string{}
+	for k, fn := range e.fnByKey {
+		if fn.Pkg != nil && e.inRepoStrict(fn) {
+			tab[k] = fnSig(fn)
+		}
+	}
+	data, err := json.MarshalIndent(tab, "", " ")
+	if err != nil {
+		return err
+	}
+	return os.WriteFile(path, data, 0o644)
+}
+
+// rebindRenamedFunctions moves contracts of vanished functions to their renamed successors.
+func (e *Engine) rebindRenamedFunctions() {
+	data, err := os.ReadFile(baselineFunctionsPath)
+	if err != nil {
+		return
+	}
+	base := map[string]string{}
+	if json.Unmarshal(data, &base) != nil {
+		return
+	}
+	for _, k := range e.lib.sortedContractKeys() {
+		if strings.HasPrefix(k, "invoke ") || e.fnByKey[k] != nil {
+			continue
+		}
+		sig, known := base[k]
+		if !known {
+			continue
+		}
+		var cands []string
+		for nk, fn := range e.fnByKey {
+			if _, old := base[nk]; old || fn.Pkg == nil || !e.inRepoStrict(fn) || e.lib.Contracts[nk] != nil {
+				continue
+			}
+			if fnSig(fn) == sig {
+				cands = append(cands, nk)
+			}
+		}
+		if len(cands) != 1 {
+			continue
+		}
+		ct := e.lib.Contracts[k]
+		delete(e.lib.Contracts, k)
+		ct.RenamedFrom = k
+		e.lib.Contracts[cands[0]] = ct
+		e.renamed = append(e.renamed, fmt.Sprintf("contract of %s applied to %s (same package, receiver and signature; a name the unchanged tree does not have)", shortKey(k), shortKey(cands[0])))
+	}
 }
